@@ -2,7 +2,7 @@
 
 DELAYS = [0.25, 0.5, 1, 1.5, 2, 3]
 ERR_TYPES = ["E", "E", "A", "B", "K", "Z"]
-PRIV_TYPES = ["assert", "exit", "kbd", "assert_sub"]
+PRIV_TYPES = ["assert", "exit", "kbd", "assert_sub", "assert_z"]
 
 
 class Gen:
